@@ -590,6 +590,37 @@ def check_stored_generator(ctx, repo, mods):
                            ctx.loc(hit[0].module, hit[1]))
 
 
+def check_apply_state_writes(ctx, repo, mods, eng):
+    """R7 (H3): predict / predict_proba / transform / inverse_transform do not write, in place, into an object that is stored on
+    self when the call starts (fitted arrays, lists of fitted members, constructor parameters) -- directly, through a view / element,
+    or inside a helper.  Such a write changes the estimator: the next call (or the same call on other data) sees the modified state."""
+    for m in mods:
+        for c in classes_of(repo, m):
+            for meth in APPLY:
+                hit = repo.lookup_method(c, meth)
+                if hit is None or hit[0].is_static(meth):
+                    continue
+                k, fn = hit
+                s_ = eng.summary(fn, k.module, c, k)
+                groups = {}
+                for ev in s_.events:
+                    if ev.kind == "write" and ev.origin.startswith("self."):
+                        groups.setdefault((ev.origin, ev.desc), []).append(ev)
+                tag = "%s.%s" % (c.name, meth)
+                for (origin, desc), evs in sorted(groups.items()):
+                    where = "; ".join(sorted({"%s%s" % (e.loc, (" via " + "->".join(e.chain)) if e.chain else "") for e in evs}))
+                    key = "%s:%s:%s" % (tag, origin, desc)
+                    if any(e.sure for e in evs):
+                        ctx.violation("R7", key, "%s writes in place (%s) into the object stored in %s [%s]: the call changes the estimator, so a "
+                                      "second call -- or the same estimator applied to other data afterwards -- works on modified fitted state"
+                                      % (tag, desc, origin, where), evs[0].loc, witness={"attribute": origin, "sink": desc, "sites": where})
+                    else:
+                        ctx.undecided("R7", key, "an in-place sink (%s) is reached through a value with unknown relation to %s [%s]" % (desc, origin, where),
+                                      evs[0].loc)
+                if not groups:
+                    ctx.ok("R7", tag, "no in-place write into an object stored on self", ctx.loc(k.module, fn), nontrivial=False)
+
+
 def check_derived_state(ctx, repo, mods):
     """R6: an attribute whose stored value is computed from fitted state F (cache / derived quantity) must be re-derived or reset by every
     public method that re-estimates F; otherwise results depend on the history of the estimator, not only on parameters and data."""
@@ -734,6 +765,77 @@ def _is_identity_range(scope, m, fn, it):
     return None
 
 
+def _strided_shares(scope, repo, m, fn, c, call, gen, g, var):
+    """tasks built from strided shares ``self.A[v::k]`` for v in range(k): every member is dispatched once, but the list of shares is
+    share-major; concatenating it into a sequence that is later paired by index with self.A puts member v + i*k at position
+    (sum of earlier share sizes) + i -- the identity only for k == 1.  Returns None when the tasks are not strided shares."""
+    if var is None:
+        return None
+    sl = [n for n in ast.walk(gen.elt) if isinstance(n, ast.Subscript) and isinstance(n.slice, ast.Slice) and n.slice.step is not None
+          and n.slice.lower is not None and astq.canon(n.slice.lower) == var and n.slice.upper is None]
+    if not sl:
+        return None
+    selfname = astq.param_names(fn)[0] if (c is not None and astq.param_names(fn)) else None
+    steps = {astq.canon(astq.inline_locals(fn, x.slice.step)) for x in sl}
+    stop = _is_identity_range(scope, m, fn, g.iter)
+    if len(steps) != 1 or stop is None or astq.canon(astq.inline_locals(fn, stop)) not in steps:
+        return None, "strided shares `%s` are not [v::k] for v in range(k)" % ast.unparse(sl[0])
+    seqs = {x.value.attr for x in sl if selfname and astq.is_self_attr(x.value, selfname)}
+    path = astq.enclosing_stmts(fn, call)
+    stmt = path[-1] if path else None
+    if not (isinstance(stmt, ast.Assign) and stmt.value is call and len(stmt.targets) == 1 and isinstance(stmt.targets[0], ast.Name)):
+        return None, "cannot follow how the strided shares are re-assembled"
+    local = stmt.targets[0].id
+    # share-major flattening of the local into an attribute of self
+    flat_attr = None
+    for n in astq.walk_no_nested(fn):
+        if isinstance(n, ast.Assign) and len(n.targets) == 1 and selfname and astq.is_self_attr(n.targets[0], selfname):
+            v = n.value
+            share_major = False
+            if isinstance(v, (ast.ListComp, ast.GeneratorExp)) and len(v.generators) == 2 and isinstance(v.generators[0].iter, ast.Name) \
+                    and v.generators[0].iter.id == local and isinstance(v.generators[0].target, ast.Name) \
+                    and isinstance(v.generators[1].iter, ast.Name) and v.generators[1].iter.id == v.generators[0].target.id \
+                    and astq.canon(v.elt) == astq.canon(v.generators[1].target):
+                share_major = True
+            if isinstance(v, ast.Call) and any(isinstance(a, ast.Name) and a.id == local for a in ast.walk(v)):
+                d = scope.ext(m, fn, v.func) or (v.func.id if isinstance(v.func, ast.Name) else "")
+                inner = [scope.ext(m, fn, x.func) for x in ast.walk(v) if isinstance(x, ast.Call)]
+                if d in ("numpy.concatenate", "numpy.hstack", "numpy.vstack", "sum", "builtins.sum") or \
+                        any(i_ in ("itertools.chain", "itertools.chain.from_iterable") for i_ in inner):
+                    share_major = True
+            if share_major:
+                flat_attr = n.targets[0].attr
+    if flat_attr is None:
+        return None, "cannot follow how the strided shares bound to `%s` are re-assembled" % local
+    # is the re-assembled sequence paired by index with the strided source anywhere in the class?
+    paired = None
+    for k_ in repo.mro(c) + repo.subclasses(c):
+        if not isinstance(k_, ClassInfo):
+            continue
+        for mn, f2 in k_.methods.items():
+            sn = astq.param_names(f2)[0] if astq.param_names(f2) else None
+            for node in ast.walk(f2):
+                subs = [x for x in ast.iter_child_nodes(node) if isinstance(x, ast.Subscript)]
+                if isinstance(node, ast.Call):
+                    subs = [a for a in node.args if isinstance(a, ast.Subscript)]
+                    if isinstance(node.func, ast.Name) and node.func.id == "zip":
+                        names = {a.attr for a in node.args if sn and astq.is_self_attr(a, sn)}
+                        if flat_attr in names and names & seqs:
+                            paired = "%s.%s (zip)" % (k_.name, mn)
+                got = {x.value.attr: x for x in subs if sn and astq.is_self_attr(x.value, sn)}
+                if flat_attr in got and set(got) & seqs:
+                    other = got[sorted(set(got) & seqs)[0]]
+                    if astq.canon(got[flat_attr].slice) == astq.canon(other.slice):
+                        paired = "%s.%s (`self.%s[%s]` with `self.%s[%s]`)" % (k_.name, mn, flat_attr, ast.unparse(got[flat_attr].slice),
+                                                                                other.value.attr, ast.unparse(other.slice))
+    kk = ast.unparse(sl[0].slice.step)
+    if paired:
+        return False, ("the members are dispatched in strided shares `%s` and the shares are concatenated share-major into self.%s, which %s pairs by "
+                       "index with self.%s: position p no longer holds the member built from element p unless %s == 1 (witness %s = 2, four "
+                       "members: order 0, 2, 1, 3), so the result depends on n_jobs" % (ast.unparse(sl[0]), flat_attr, paired, sorted(seqs)[0], kk, kk))
+    return None, "strided shares are concatenated into self.%s; no index pairing with %s found to judge the order" % (flat_attr, sorted(seqs))
+
+
 def _batch_coverage(scope, m, fn, gen, g, var):
     """tasks built from slices ``self.A[v : v + B]`` for v in range(0, stop, B): the union of the slices is [0, ceil(stop / B) * B);
     every member is evaluated exactly once iff that is the whole sequence.  Returns None when the tasks do not slice by the loop variable."""
@@ -820,6 +922,11 @@ def check_parallel(ctx, repo, mods):
             continue
         stop = _is_identity_range(scope, m, fn, it)
         var = g.target.id if isinstance(g.target, ast.Name) else None
+        strided = _strided_shares(scope, repo, m, fn, c, call, gen, g, var)
+        if strided is not None:
+            verdict, why = strided
+            ctx.check(verdict, "R5", tag + ":order", why, "%s: %s" % (q, why), loc, witness={"iterable": ast.unparse(it)})
+            continue
         cov = _batch_coverage(scope, m, fn, gen, g, var)
         if cov is not None:
             verdict, why = cov
@@ -1188,6 +1295,7 @@ def run(ctx):
     check_seed_forwarding(ctx, repo, mods)
     check_stored_generator(ctx, repo, mods)
     check_derived_state(ctx, repo, mods)
+    check_apply_state_writes(ctx, repo, mods, eng)
     check_pickle(ctx, repo, mods)
     check_parallel(ctx, repo, mods)
     check_parallel_siblings(ctx, repo, mods)
@@ -1196,5 +1304,6 @@ def run(ctx):
     ctx.floor("R2", 10)   # public entry points (and orphan helpers) that reach a .fit/.fit_transform call
     ctx.floor("R3", 150)  # 210 functions scanned; 8 generator constructions, 4 parameter/attribute draws, 6 delayed sites
     ctx.floor("R4", 35)   # 43 classes
+    ctx.floor("R7", 45)   # apply-type entry points of the anchored classes
     ctx.floor("R6", 30)   # classes with a fit method
     ctx.floor("R5", 10)   # 6 Parallel sites (source/index + consumer each) + 1 cross-method pairing
